@@ -49,34 +49,26 @@ func Send(rw io.ReadWriter, streamData *stream.Info, ws bool, version stream.Ver
 	}
 
 	if id != "" {
-		_, err = fmt.Fprintf(b, " id='%s'", id)
+		err = writeAttr(b, " id='", id)
 		if err != nil {
 			return err
 		}
 	}
 	if to != "" {
-		_, err = fmt.Fprintf(b, " to='%s'", to)
+		err = writeAttr(b, " to='", to)
 		if err != nil {
 			return err
 		}
 	}
 	if from != "" {
-		_, err = fmt.Fprintf(b, " from='%s'", from)
+		err = writeAttr(b, " from='", from)
 		if err != nil {
 			return err
 		}
 	}
 
 	if len(lang) > 0 {
-		_, err = b.Write([]byte(" xml:lang='"))
-		if err != nil {
-			return err
-		}
-		err = xml.EscapeText(b, []byte(lang))
-		if err != nil {
-			return err
-		}
-		_, err = b.Write([]byte("'"))
+		err = writeAttr(b, " xml:lang='", lang)
 		if err != nil {
 			return err
 		}
@@ -92,6 +84,20 @@ func Send(rw io.ReadWriter, streamData *stream.Info, ws bool, version stream.Ver
 	}
 
 	return b.Flush()
+}
+
+// writeAttr writes the attribute prefix (including the opening single quote),
+// the escaped value, and the closing quote.
+func writeAttr(b *bufio.Writer, prefix, value string) error {
+	_, err := b.WriteString(prefix)
+	if err != nil {
+		return err
+	}
+	err = xml.EscapeText(b, []byte(value))
+	if err != nil {
+		return err
+	}
+	return b.WriteByte('\'')
 }
 
 // Expect reads a token from d and expects that it will be a new stream start
